@@ -591,6 +591,28 @@ def key_ffi(ctx, rep, rule):
         ok = bool(pads) and all(e.args == ["key", "self.KEY_LENGTH"] and ("key_type._is_aligned", True) in e.conds for e in pads)
         rep.check(rule, "user.BaseAuthKey.__init__|pad", ok, "aligned auth keys padded to KEY_LENGTH", "auth key padding changed",
                   py.loc("user", pyr.fn_node(ctx, "user", "BaseAuthKey", "__init__")))
+        # the key octets are taken as given: the only rewriting between the caller's bytes and the stored key is the
+        # alignment above (no stripping, decoding or case folding of key material)
+        import ast as _ast
+        odd = []
+        for p in ps:
+            for e in p.events:
+                if e.kind == "bind" and e.target == "key":
+                    try:
+                        tree = _ast.parse(e.value, mode="eval")
+                    except SyntaxError:
+                        continue
+                    for n_ in _ast.walk(tree):
+                        if isinstance(n_, _ast.Call) and _ast.unparse(n_.func) not in ("len", "bytes", "self._padded", "cls._padded"):
+                            odd.append((_ast.unparse(n_)[:60], e))
+        rep.check(rule, "user.BaseAuthKey.__init__|key taken as given", not odd, "only aligned", "the key material is rewritten before use (%s): keys "
+                  "containing such octets are silently replaced by another key" % (odd[0][0] if odd else ""),
+                  pyr.loc(ctx, "user", odd[0][1]) if odd else py.loc("user", pyr.fn_node(ctx, "user", "BaseAuthKey", "__init__")), obligation=True)
+    ps = pyr.paths(ctx, rep, rule, "user", "BaseKey", "__init__")
+    if ps:
+        vals = {e.value for p in ps for i, e in pyr.stores(p, "self.key")}
+        rep.check(rule, "user.BaseKey.__init__|key stored as given", vals == {"key"}, "self.key = key", "self.key = %s" % sorted(vals),
+                  py.loc("user", pyr.fn_node(ctx, "user", "BaseKey", "__init__")), obligation=True)
     ps = pyr.paths(ctx, rep, rule, "user", "BaseKey", "_padded")
     if ps:
         rows = sorted({(tuple(sorted(set(p.conds))), pysym_text(p.ret)) for p in ps if p.done == "return"})
@@ -1453,6 +1475,131 @@ def msg_flags_decode(ctx, rep, rule):
         rep.check(rule, "SnmpV3Message::try_from|msgFlags", not bad, "flag_auth/flag_priv/flag_report = bits 0/1/2 of the flags octet, for all 256 octets",
                   "decoded flags do not mirror the encoder's msgFlags table: %s" %
                   ", ".join("%s differs from bit %d for octet 0x%02x" % (f, bits[f].bit_length() - 1, v) for f, v in sorted(bad.items())), body.loc(), obligation=True)
+
+
+def literal_int_tlv(ctx, rep, rule):
+    """An INTEGER written as a literal TLV `[02, 01, x as u8]` (a "small value" fast path beside SnmpInt::push_ber) is right
+    only for 0..=127: the single content octet is a two's-complement number, 128..=255 read back as -128..=-1.  The range
+    of x at the cast is taken from the numeric analysis (cast facts); an unknown range is inconclusive."""
+    facts = ctx.facts
+    res = None
+    n = 0
+    for body in facts.body_list:
+        if not any((callee_path(b.term) or "") in ("buf::buffer::Buffer::push", "buf::buffer::Buffer::push_unchecked") for b in body.calls()):
+            continue
+        for blk in body.live_blocks():
+            for st_ in blk.stmts:
+                if not (st_["k"] == "assign" and st_["rv"]["k"] == "agg" and st_["rv"].get("ak") == "array" and len(st_["rv"].get("ops") or []) == 3):
+                    continue
+                ops = st_["rv"]["ops"]
+                prov = flow.Prov(body)
+                t0, t1, t2 = [prov.operand(o) for o in ops]
+                if t0 != ("const", 2) or t1 != ("const", 1) or t2[0] == "const":
+                    continue
+                # the cast that produced the content octet (through plain moves of temporaries)
+                site = None
+                l = (ops[2].get("move") or ops[2].get("copy") or {}).get("l")
+                for _ in range(6):
+                    nxt = None
+                    for b2 in body.live_blocks():
+                        for si, s2 in enumerate(b2.stmts):
+                            if s2["k"] == "assign" and s2["place"]["l"] == l and not s2["place"]["p"]:
+                                if s2["rv"]["k"] == "cast":
+                                    site = (b2.idx, si, s2)
+                                elif s2["rv"]["k"] == "use":
+                                    q = s2["rv"]["op"].get("move") or s2["rv"]["op"].get("copy")
+                                    nxt = q["l"] if q and not q["p"] else None
+                    if site is not None or nxt is None:
+                        break
+                    l = nxt
+                n += 1
+                key = "%s|literal INTEGER, one content octet" % body.path
+                if site is None:
+                    rep.inconclusive(rule, key, "the content octet is not produced by a cast", body.loc(st_.get("line")))
+                    continue
+                # range of the value where the literal is built: from the guards every way to it crosses (a..=b contains,
+                # comparisons with constants), else from the numeric analysis (cast facts)
+                src = prov.operand(site[2]["rv"]["op"])
+                while src[0] == "cast":
+                    src = src[1]
+                lo, hi = None, None
+                for g in flow.guards(body, prov):
+                    for edge, pol in ((g.true_edge, True), (g.false_edge, False)):
+                        if not cfg.must_pass(body, [0], [blk.idx], {edge}):
+                            continue
+                        t = g.term
+                        if pol and t[0] == "call" and (t[1] or "").split("::")[-1] == "contains" and len(t[2]) == 2 and t[2][1] == src:
+                            r_ = t[2][0]
+                            while r_[0] == "promoted":
+                                r_ = r_[1]
+                            if r_[0] == "call" and (r_[1] or "").endswith("RangeInclusive::<Idx>::new") and all(x[0] == "const" for x in r_[2]):
+                                lo, hi = max(lo, r_[2][0][1]) if lo is not None else r_[2][0][1], min(hi, r_[2][1][1]) if hi is not None else r_[2][1][1]
+                            elif r_[0] == "agg" and (r_[1] or "").endswith("ops::Range") and len(r_) > 3:
+                                fs = dict(r_[3])
+                                a_, b_ = fs.get("start"), fs.get("end")
+                                if a_ and b_ and a_[0] == "const" and b_[0] == "const":
+                                    lo, hi = max(lo, a_[1]) if lo is not None else a_[1], min(hi, b_[1] - 1) if hi is not None else b_[1] - 1
+                        if t[0] == "bin" and t[1] in ("Lt", "Le", "Gt", "Ge") and t[2] == src and t[3][0] == "const":
+                            op_, c_ = t[1], t[3][1]
+                            if not pol:
+                                op_ = {"Lt": "Ge", "Le": "Gt", "Gt": "Le", "Ge": "Lt"}[op_]
+                            if op_ == "Lt":
+                                hi = c_ - 1 if hi is None else min(hi, c_ - 1)
+                            elif op_ == "Le":
+                                hi = c_ if hi is None else min(hi, c_)
+                            elif op_ == "Gt":
+                                lo = c_ + 1 if lo is None else max(lo, c_ + 1)
+                            else:
+                                lo = c_ if lo is None else max(lo, c_)
+                if lo is None or hi is None:
+                    if res is None:
+                        from .. import numrun
+                        res = numrun.run(ctx)
+                    d = res.by_body.get(body.path) or {}
+                    rec = [c for c in d.get("casts", []) if c["block"] == site[0] and c["stmt"] == site[1]]
+                    ft = facts.types[site[2]["rv"]["from"]] if site[2]["rv"].get("from") is not None else {}
+                    full = ft.get("k") == "int" and rec and min(c["lo"] if c["lo"] is not None else 0 for c in rec) <= -(1 << (ft["bits"] - 1)) + 0 and ft.get("signed")
+                    if not rec or any(c["lo"] is None or c["hi"] is None for c in rec) or full:
+                        rep.inconclusive(rule, key, "range of the value at the cast is not known", body.loc(site[2].get("line")))
+                        continue
+                    lo = min(c["lo"] for c in rec) if lo is None else lo
+                    hi = max(c["hi"] for c in rec) if hi is None else hi
+                rep.check(rule, key, 0 <= lo and hi <= 127, "value within 0..=127",
+                          "values %d..=%d are written as the single content octet of an INTEGER: 128..=255 go on the wire as -128..=-1" % (lo, hi),
+                          body.loc(site[2].get("line")), obligation=True)
+    rep.info(rule, "literal one-octet INTEGER TLVs", str(n))
+
+
+def out_of_buffer_owner(ctx, rep, rule):
+    """SnmpError::OutOfBuffer is produced by the buffer alone (the write that does not fit fails): no encoder refuses a
+    request on an estimate of its size - an estimate that is off refuses requests that fit."""
+    facts = ctx.facts
+    n = 0
+    for body in facts.body_list:
+        for blk in body.live_blocks():
+            for st_ in blk.stmts:
+                if st_["k"] == "assign" and st_["rv"]["k"] == "agg" and st_["rv"].get("vname") == "OutOfBuffer":
+                    n += 1
+                    inside = body.path.startswith("buf::") or body.path.startswith("<buf::")
+                    rep.check(rule, "%s|OutOfBuffer" % body.path, inside, "raised by the buffer",
+                              "OutOfBuffer is raised outside buf::buffer: the request is refused by a size estimate, not by the write that does not fit",
+                              body.loc(st_.get("line")), obligation=True)
+    if n == 0:
+        rep.missing(rule, "SnmpError::OutOfBuffer: no construction site")
+
+
+def nopriv_refuses(ctx, rep, rule):
+    """A session without a privacy key has no way to read an encrypted scoped PDU: NoPriv::decrypt has no successful exit
+    (unwrap_pdu drops the message), whatever the OCTET STRING contains."""
+    facts = ctx.facts
+    body = facts.body("<privacy::nopriv::NoPriv as privacy::SnmpPriv>::decrypt")
+    if body is None:
+        rep.missing(rule, "NoPriv::decrypt")
+        return
+    rep.note_analysed("functions", [body.path])
+    oks = flow.blocks_assigning_return(body, lambda rv: rv["k"] == "agg" and rv.get("vname") == "Ok")
+    rep.check(rule, "NoPriv::decrypt|never succeeds", not oks, "no Ok exit", "NoPriv::decrypt can return a scoped PDU: a session without a privacy key "
+              "accepts the payload of a message flagged as encrypted", body.loc(), obligation=True)
 
 
 def hand_lengths(ctx, rep, rule):
